@@ -18,6 +18,8 @@ histories have any length.
 -/
 import PybropsModel.Lemmas.SelLimitHistory
 import PybropsModel.Lemmas.GenotypeRounding
+import PybropsModel.Lemmas.SelLimitC01
+import PybropsModel.Lemmas.Binary64
 set_option autoImplicit false
 set_option linter.unusedSectionVars false
 set_option linter.unusedVariables false
@@ -163,6 +165,61 @@ theorem mating_is_closed (pr : Protocol) {nt nv : Nat} {X : PMat} (hX : ValidP n
 
 end mating
 
+/-! ### the tie to C01's mating model (the one C01 checks against the real protocols with scripted draws) -/
+section c01
+variable {α : Type} [Field α] [LinearOrder α] [IsStrictOrderedRing α]
+variable {ρ : Type} [Preorder ρ] [DecidableLT ρ] [Zero ρ]
+
+/-- **The loop of this model is C01's loop**: `SelLimit.segLoop` and C01's `Meiosis.segLoop` are the same function
+    on every input, and a gamete of this model is C01's `gameteLoop` of the parent's two chromosomes under
+    C01's crossover mask — so `gamete_copies_parental_alleles` and `mating_is_closed` speak about the loop whose
+    mosaic theorems C01 proves. -/
+theorem loop_is_C01_loop (geno : PMat) (xo r : List ρ) (s : Nat) (h0 h1 : List Int) (xs : List Nat)
+    (stix : Nat) (ph : Bool) :
+    segLoop h0 h1 stix ph xs = Meiosis.segLoop h0 h1 stix ph xs
+    ∧ gamete geno xo s r = Meiosis.gameteLoop (chrom geno 0 s, chrom geno 1 s) (Meiosis.xoMask r xo) :=
+  ⟨segLoop_eq_C01 h0 h1 xs stix ph, gamete_eq_C01 geno xo r s⟩
+
+/-- **No assumption on the count arrays is left**: C01's `Mating.mate` is the whole `mate()` call including the
+    code's own checks (`nmating`/`nprogeny` scalar or array of length `len(xconfig)`, xconfig width, parent
+    indices, shapes; anything else is an error value).  Whenever it returns a progeny — for every protocol,
+    every cross configuration, scalar or array counts, every selfing depth and every non-negative draw
+    stream — the step from the parents to the progeny is closed, the progeny is a valid population (when it
+    is non-empty), and therefore the upper limit cannot rise and the lower limit cannot fall. -/
+theorem mating_is_closed_C01 {P : Mating.Proto} {pop : Meiosis.Pop Int} {xc : List (List Nat)}
+    {nmating nprogeny : Mating.Cnt} {nself : Nat} {xo : List ρ} {pc fc : Nat}
+    {draws : List (Meiosis.DrawMat ρ)} {out : Mating.Out Int}
+    (h : Mating.mate P pop xc nmating nprogeny nself xo pc fc draws = .ok out) (hnn : Mating.Nonneg draws)
+    (hpop : ValidP pop.length xo.length (toPM pop)) (hne : out.rows ≠ []) (u : Nat → α) :
+    let parents : Pop := ⟨pop.length, toPM pop⟩
+    let prog : Pop := ⟨out.rows.length, toPM (out.rows.map Mating.Row.ind)⟩
+    ClosedStep xo.length parents prog
+    ∧ ValidP prog.nt xo.length prog.G
+    ∧ uslF prog.G.length xo.length u (pafreqAt (α := α) prog.nt prog.G)
+        ≤ uslF parents.G.length xo.length u (pafreqAt (α := α) parents.nt parents.G)
+    ∧ lslF parents.G.length xo.length u (pafreqAt (α := α) parents.nt parents.G)
+        ≤ lslF prog.G.length xo.length u (pafreqAt (α := α) prog.nt prog.G) := by
+  intro parents prog
+  have hc := c01_mate_closed h hnn
+  have hv := c01_mate_valid h hnn hpop hne
+  obtain ⟨s1, s2⟩ := step_limits (α := α) (P := parents) (Q := prog) hpop hv hc u
+  exact ⟨hc, hv, s1, s2⟩
+
+/-- the code's check on a count argument yields exactly one count per cross (what `mating_is_closed` assumes) -/
+theorem count_check_gives_one_count_per_cross (c : Mating.Cnt) (ncross : Nat) (l : List Nat)
+    (h : c.expand ncross = .ok l) : l.length = ncross := by
+  cases c with
+  | scalar n =>
+    simp only [Mating.Cnt.expand] at h
+    cases h; simp
+  | arr a =>
+    simp only [Mating.Cnt.expand] at h
+    split at h
+    · next hl => cases h; exact hl
+    · cases h
+
+end c01
+
 section programme
 variable {α : Type} [Field α] [LinearOrder α] [IsStrictOrderedRing α]
 variable {β : Type} [LT β] [DecidableLT β]
@@ -220,6 +277,16 @@ theorem limits_rounded_exact_partial (h : RoundingContract rnd e) {ploidy nv : N
   · apply sumF_map_congr; intro j _; rw [(key j).1]
   · apply sumF_map_congr; intro j _; rw [(key j).2]
 
+/-- the limits with the IEEE binary64 rounding itself (`Binary64.roundBinary64`, proved to satisfy the contract):
+    for every valid population of at most 2⁵³ chromosome copies the float limits are the exact ones -/
+theorem limits_ieee_exact_partial {ploidy nv : Nat} {m : UMat} (hv : ValidU ploidy nv m)
+    (hbig : ploidy * m.length ≤ 2 ^ 53) (u : Nat → ℚ) :
+    uslF ploidy nv u (fun j => Binary64.roundBinary64 (afreqAt (α := ℚ) ploidy m j))
+        = uslF ploidy nv u (afreqAt (α := ℚ) ploidy m)
+    ∧ lslF ploidy nv u (fun j => Binary64.roundBinary64 (afreqAt (α := ℚ) ploidy m j))
+        = lslF ploidy nv u (afreqAt (α := ℚ) ploidy m) :=
+  limits_rounded_exact_partial Binary64.roundBinary64_contract hv (eps64_bound _ hbig) u
+
 /-- the same for a phased population (`usl(pgmat)` calls the phased `afreq()`) -/
 theorem limits_rounded_exact_phased_partial (h : RoundingContract rnd e) {nt nv : Nat} {G : PMat}
     (hv : ValidP nt nv G) (hbig : ((G.length * nt : ℕ) : ℚ) * e ≤ 1) (u : Nat → ℚ) :
@@ -268,5 +335,15 @@ example : StepsOk (α := Rat) 2 [⟨[1, 0], .twoWayDH, [[0, 1]], [1], [3], 1, []
 /-- a history in which an allele is lost: locus 0 loses allele 0, locus 1 loses allele 1 -/
 example : IsHistory 2 [⟨2, [[[1, 0], [0, 1]], [[1, 0], [1, 0]]]⟩, ⟨1, [[[1, 0]], [[1, 0]]]⟩] := by
   refine ⟨(closedStepB_iff _ _ _).mp (by decide), trivial⟩
+
+/-- `mating_is_closed_C01` is not vacuous: C01's model accepts a three-way DH cross with array counts and selfing
+    between binary parents (and rejects a count array of the wrong length) -/
+example : (match Mating.mate (ρ := Int) .threeWayDH [([1, 0, 1], [0, 0, 1]), ([1, 1, 0], [0, 0, 1]), ([0, 1, 1], [1, 1, 1])]
+    [[0, 1, 2]] (.arr [2]) (.scalar 2) 1 [1, 0, 1] 0 0
+    (List.replicate 6 (List.replicate 2 [0, 0, 1]) ++ [List.replicate 4 [0, 0, 1]]) with
+    | .ok o => o.rows.length == 4 | .error _ => false) = true := by decide +kernel
+example : (match Mating.mate (ρ := Int) .twoWay [([1, 0], [0, 0]), ([1, 1], [0, 0])] [[0, 1]] (.arr [1, 1]) (.scalar 1) 0
+    [1, 1] 0 0 [[[0, 0]], [[0, 0]]] with | .ok _ => false | .error e => e == Meiosis.Err.value) = true := by decide +kernel
+example : ValidP 3 3 (toPM [([1, 0, 1], [0, 0, 1]), ([1, 1, 0], [0, 0, 1]), ([0, 1, 1], [1, 1, 1])]) := by decide
 
 end C10
